@@ -5,7 +5,10 @@ import (
 	"fmt"
 	"sort"
 	"strings"
+	"testing"
+	"time"
 
+	context2 "github.com/oneconcern/datamon/pkg/context"
 	"github.com/oneconcern/datamon/pkg/core"
 	"verif/harness/lib"
 )
@@ -283,4 +286,104 @@ func c09bRun(rep *lib.Report) {
 		}
 	}
 	rep.Set("histories_b", len(hists))
+}
+
+// ---- (c) repository operations under a single transient store failure (E1, fault enumeration) -----------------
+
+func c09cFaults(t *testing.T, rep *lib.Report) {
+	gates := map[string]func(string, string) bool{"meta": allCalls, "vmeta": allCalls}
+	type opT struct {
+		name string
+		run  func(st context2.Stores) error
+	}
+	for _, o := range []opT{
+		{"rename(a->c)", func(st context2.Stores) error { return core.RenameRepo("a", "c", st) }},
+		{"delete-repo(a)", func(st context2.Stores) error { return core.DeleteRepo("a", st) }},
+		{"delete-files(a,[p])", func(st context2.Stores) error { return core.DeleteEntriesFromRepo("a", st, []string{"p"}) }},
+	} {
+		o := o
+		sc := &lib.Scenario{Name: "repo-op-under-fault:" + o.name}
+		sc.Setup = func(x *lib.Exec) {
+			cw := c09build(c09hist{nA: 2, nAB: 1, nB: 0, labels: true})
+			x.Data["cw"] = cw
+			before := map[string]string{}
+			for _, r := range []string{"a", "ab"} {
+				ob, err := c09observe(cw.w, r)
+				if err != nil {
+					panic(err)
+				}
+				before[r] = ob
+			}
+			x.Data["before"] = before
+		}
+		sc.Phases = [][]lib.ClientFn{{func(x *lib.Exec, id int) error {
+			cw := x.Data["cw"].(*c09world)
+			return o.run(cw.w.Gated(x, id, gates))
+		}}}
+		sc.Faults = transientFaults(0)
+		sc.Final = func(x *lib.Exec) {
+			cw := x.Data["cw"].(*c09world)
+			before := x.Data["before"].(map[string]string)
+			site := faultClass(x)
+			kind := strings.SplitN(o.name, "(", 2)[0]
+			if x.Hung {
+				x.Violate("C09|under-fault|hang|"+kind, o.name+" never returned under "+site)
+				return
+			}
+			err := x.ClientErr[0]
+			x.SetOutcome(site + ";" + errTag(err))
+			if site == "none" && err != nil {
+				x.Violate("C09|under-fault|error-without-fault|"+kind, err.Error())
+				return
+			}
+			if ob, oerr := c09observe(cw.w, "ab"); oerr != nil || ob != before["ab"] {
+				x.Violate("C09|under-fault|other-repository-changed|"+kind, fmt.Sprintf("%s under %s: repository ab observed %q (%v), before %q", o.name, site, ob, oerr, before["ab"]))
+			}
+			st := cw.w.Stores()
+			aExists := core.RepoExists("a", st) == nil
+			switch kind {
+			case "rename":
+				oa, ea := c09observe(cw.w, "a")
+				oc, ec := c09observe(cw.w, "c")
+				if err == nil {
+					if aExists {
+						x.Violate("C09|under-fault|rename-success-but-old-repo-exists", fmt.Sprintf("%s returned nil under %s", o.name, site))
+					}
+					if ec != nil || oc != before["a"] {
+						x.Violate("C09|under-fault|rename-success-but-new-repo-incomplete", fmt.Sprintf("%s returned nil under %s; new repo observed %q (%v), old repo was %q", o.name, site, oc, ec, before["a"]))
+					}
+				} else if !((ea == nil && oa == before["a"]) || (ec == nil && oc == before["a"])) {
+					x.Violate("C09|under-fault|rename-failed-and-no-complete-copy-left", fmt.Sprintf("%s failed under %s (%v): old repo observed %q (%v), new repo %q (%v), before %q", o.name, site, err, oa, ea, oc, ec, before["a"]))
+				}
+			case "delete-repo":
+				if err == nil {
+					for _, k := range cw.w.Meta.RawKeys() {
+						if strings.HasPrefix(k, "repos/a/") || strings.HasPrefix(k, "bundles/a/") || strings.HasPrefix(k, "labels/a/") {
+							x.Violate("C09|under-fault|delete-success-but-keys-left", fmt.Sprintf("%s returned nil under %s; %s still exists", o.name, site, k))
+							break
+						}
+					}
+				}
+			case "delete-files":
+				if err == nil {
+					for _, id := range cw.ids["a"] {
+						got, eerr := bundleEntries(st, "a", id)
+						if eerr != nil {
+							x.Violate("C09|under-fault|delete-files-success-but-bundle-unreadable", fmt.Sprintf("%s returned nil under %s; bundle %s: %v", o.name, site, id, eerr))
+							continue
+						}
+						if _, still := got["p"]; still {
+							x.Violate("C09|under-fault|delete-files-success-but-path-still-listed", fmt.Sprintf("%s returned nil under %s; bundle %s still lists p", o.name, site, id))
+						}
+						if len(got) != len(cw.files[id])-1 {
+							x.Violate("C09|under-fault|delete-files-success-but-wrong-entries", fmt.Sprintf("%s returned nil under %s; bundle %s lists %d entries, want %d", o.name, site, id, len(got), len(cw.files[id])-1))
+						}
+					}
+				}
+			}
+		}
+		e := &lib.Explorer{Sc: sc, PreemptBound: 0, FaultBound: 1, MaxExecs: 50000, Budget: 8 * time.Minute}
+		e.Explore(t, rep)
+		rep.Set("executions:"+sc.Name, e.Execs)
+	}
 }
